@@ -20,23 +20,28 @@
 *)
 EXTENDS Naturals, Integers, Sequences, FiniteSets, TLC
 
-M0 == [cur |-> "", req |-> [t \in {} |-> 0], fail |-> "ok"]
+M0 == [cur |-> "", req |-> [t \in {} |-> 0], inside |-> {}, fail |-> "ok"]
 Fail(m, l) == [m EXCEPT !.fail = l]
 ReqOf(m, t) == IF t \in DOMAIN m.req THEN m.req[t] ELSE -1
 
 Step(m, e) ==
-  CASE e.e = "Arrive" -> [m EXCEPT !.req = [t \in DOMAIN m.req \cup {e.task} |-> IF t = e.task THEN e.req ELSE m.req[t]]]
+  CASE e.e = "Arrive" -> [m EXCEPT !.req = [t \in DOMAIN m.req \cup {e.task} |-> IF t = e.task THEN e.req ELSE m.req[t]],
+                                   !.inside = @ \cup {e.task}]
     [] e.e = "W" ->
          IF m.cur # "" /\ m.cur # e.task THEN Fail(m, "M1/request-transmitted-during-another-exchange")
          ELSE IF e.req # ReqOf(m, e.task) THEN Fail(m, "M2/bytes-on-the-wire-are-not-the-callers-request")
          ELSE [m EXCEPT !.cur = e.task]
     [] e.e = "R" ->
-         IF m.cur # e.task THEN Fail(m, "M1/read-outside-the-callers-own-exchange") ELSE m
+         \* a read belongs to the reader's own open exchange - or happens while NOBODY's exchange is open, by a task
+         \* that is inside request()/reconnect() (e.g. discarding late replies before it transmits): that interleaves
+         \* with nothing.  A read that returns while ANOTHER caller's exchange is open is the violation.
+         IF m.cur = e.task \/ (m.cur = "" /\ e.task \in m.inside) THEN m
+         ELSE Fail(m, "M1/read-outside-the-callers-own-exchange")
     [] e.e = "RC" ->
          IF m.cur # "" /\ m.cur # e.task THEN Fail(m, "M1/reconnect-during-another-exchange") ELSE m
     [] e.e = "Done" ->
          IF e.kind = "Reply" /\ e.req # ReqOf(m, e.task) THEN Fail(m, "M2/reply-belongs-to-a-different-request")
-         ELSE IF m.cur = e.task THEN [m EXCEPT !.cur = ""] ELSE m
+         ELSE [m EXCEPT !.cur = (IF m.cur = e.task THEN "" ELSE m.cur), !.inside = @ \ {e.task}]
     [] e.e = "Final" ->
          IF e.pending # <<>> THEN Fail(m, "M3/caller-never-finished") ELSE m
     [] OTHER -> Fail(m, "trace/unknown-event")
